@@ -28,12 +28,15 @@ def str_encode(self, encoding="utf-8", errors="strict"):
 
 class JSONDecoder:
     """json.JSONDecoder: decode(str) returns a document or raises JSONDecodeError; deeply nested input makes the
-    pure-Python/C scanner raise RecursionError (observed on CPython 3.12: b'[' * 100000)."""
+    pure-Python/C scanner raise RecursionError (observed on CPython 3.12: b'[' * 100000); an integer literal of more than
+    4300 digits raises a plain ValueError (b'1' * 5000)."""
 
     def decode(self, document):
         if not fn("J_ok", "bool", document):  # J_ok: "decode() returns a value"
             if nondet_bool():
                 raise RecursionError
+            if nondet_bool():
+                raise ValueError  # int literal beyond sys.get_int_max_str_digits() (4300 digits): plain ValueError, observed on CPython 3.12
             raise json.JSONDecodeError
         return fn("J_val", "obj", document)
 
